@@ -10,7 +10,7 @@ from pbt.core import Result, pf_tol, silence, pf_outcome
 ID = "C11"
 LEVEL = "exploration"
 EXAMPLES = {"quick": 480, "thorough": 8000}
-DEADLINE_S = {"quick": 400, "thorough": 3000}
+DEADLINE_S = {"quick": 900, "thorough": 3600}
 SHRINK_S = {"quick": 30, "thorough": 120}
 RULE = ("Hypothesis draws a network recipe of the '3ph' family (1-3 voltage levels, <= 9 buses, ext_grids with "
         "s_sc_max/rx_max/r0x0_max/x0x_max, lines with r0/x0/c0, 2W transformers with vk0/vkr0/mag0_percent/mag0_rx/"
